@@ -6,6 +6,7 @@ import (
 	"go/types"
 	"math"
 	"math/big"
+	"strings"
 
 	"verifengine/smt"
 )
@@ -718,8 +719,48 @@ func (x *Exec) infFacts(a, other *smt.Term) {
 	if !x.mentionsInfLeaf(a, 0) || x.mentionsInfLeaf(other, 0) {
 		return
 	}
+	// only for values that cannot be infinite themselves: results of (uninterpreted)
+	// function applications, finite inputs, literals and arithmetic over those. A
+	// variable havocked by a loop or read from memory may well hold +-Inf (an
+	// accumulator initialised with math.Inf): asserting it finite made every state
+	// in which it still holds its initial value contradictory (vacuous iterations).
+	if !x.knownFinite(other, 0) {
+		return
+	}
 	inf := x.b.Const("math_inf", "Real")
 	x.axiom(x.b.And(x.b.Cmp("<", other, inf), x.b.Cmp("<", x.b.Neg(inf), other)))
+}
+
+// knownFinite: the term does not depend on anything a loop havocked (a
+// loop-carried variable, a local cell or a heap as of a loop head). Inputs,
+// memory as of function entry and function results are finite by the stated
+// assumption of the real model; a loop accumulator may hold +-Inf.
+func (x *Exec) knownFinite(t *smt.Term, depth int) bool {
+	seen := map[int]bool{}
+	var bad func(u *smt.Term) bool
+	bad = func(u *smt.Term) bool {
+		if seen[u.ID] {
+			return false
+		}
+		seen[u.ID] = true
+		if len(seen) > 4000 {
+			return true
+		}
+		if len(u.Args) == 0 {
+			n := u.Op
+			if strings.HasPrefix(n, "phi_") || strings.Contains(n, "_loop") || strings.Contains(n, "_dry") {
+				return true
+			}
+			return false
+		}
+		for _, a := range u.Args {
+			if bad(a) {
+				return true
+			}
+		}
+		return false
+	}
+	return !bad(t)
 }
 
 func (x *Exec) mentionsInfLeaf(t *smt.Term, depth int) bool {
